@@ -414,7 +414,7 @@ def job_keyorder(tier, seed):
     res = {"paths": eng.paths, "queries": eng.queries, "decisions": eng.decisions, "solver_s": round(eng.solver_time, 3), "reached": asserting > 0,
            "samples": samples, "validated": 0, "extra": {"sorted_call": call_src, "wall_s": round(time.time() - t0, 1)}}
     if cands:
-        res.update(verdict="CANDIDATE", candidates=cands[:3], detail="%d violating path(s)" % bad)
+        res.update(verdict="CANDIDATE", candidates=cands[:8], detail="%d violating path(s)" % bad)
     else:
         res.update(verdict="HOLDS", detail="%d paths discharged" % asserting)
     return res
@@ -483,7 +483,7 @@ def job_escape(tier, seed):
            "samples": [{"query": "exists c: (ESCAPE matches c) != (c in {00..1F, backslash, quote})", "result": "unsat" if not cands else "sat"}],
            "extra": {"pattern": C.ESCAPE.pattern, "c_encoder_contract_test_cases": n_contract, "wall_s": round(time.time() - t0, 1)}}
     if cands:
-        res.update(verdict="CANDIDATE", candidates=cands[:3], detail="escaping differs from RFC 8785")
+        res.update(verdict="CANDIDATE", candidates=cands[:8], detail="escaping differs from RFC 8785")
     else:
         res.update(verdict="HOLDS", detail="character class and table equal the RFC 8785 set")
     return res
